@@ -69,15 +69,25 @@ template<typename Alloc, typename Awt, typename Fn, typename ... Args>
 with_allocator<Alloc,async<void> > callback_await_coro(Alloc &, Fn fn, Args ... args) noexcept {
     using RetVal = std::decay_t<awaiter_return_value<Awt> >;
     Awt awt(std::forward<Args>(args)...);
-    try {
-        if constexpr(std::is_void_v<RetVal>) {
+    //the callback is called outside of the try block: an exception thrown by the callback
+    //itself must not be reported back to the same callback as a failed await
+    if constexpr(std::is_void_v<RetVal>) {
+        bool ok = false;
+        try {
             co_await awt;
-            fn(await_result<void>{true});
-        } else {
-            fn(await_result<RetVal>{&co_await awt});
+            ok = true;
+        } catch (...) {
+            fn(await_result<void>{});
         }
-    } catch (...) {
-        fn(await_result<RetVal>{});
+        if (ok) fn(await_result<void>{true});
+    } else {
+        RetVal *res = nullptr;
+        try {
+            res = &co_await awt;
+        } catch (...) {
+            fn(await_result<RetVal>{});
+        }
+        if (res) fn(await_result<RetVal>{res});
     }
 }
 
